@@ -60,6 +60,8 @@ def run(ctx):
         ctx.guard(docwalk.cursor_advance, ctx, cfg, fs, 'K.cursor', r'render_html$|render_markdown$|render_roff$')
         ctx.guard(docwalk.payload_writers, ctx, cfg, fs, 'K.cursor')
         import c04 as c04_, c08 as c08_
+        # GroupStart/GroupEnd (and the blocks they open and close in every renderer) stay paired because append_meta emits them in pairs and never takes one back
+        ctx.guard(c08_.keep_only, ctx, lambda: c04_.group_flag(ctx, cfg, fs), lambda o: True, 'P.pairing')
         ctx.guard(c08_.keep_only, ctx, lambda: c04_.str_index(ctx, cfg, fs), lambda o: 'Splitter' in o.key, 'K.cursor')
         ctx.guard(c08_.keep_only, ctx, lambda: c04_.str_cut(ctx, cfg, fs), lambda o: 'Splitter' in o.key, 'K.cursor')
         ctx.guard(docwalk.style_reset_first, ctx, cfg, fs, 'H.html-tags', r'render_html$|render_markdown$', r'buffer::html::change_(to_markdown_)?style$')
@@ -645,6 +647,19 @@ def sections(ctx, cfg, fs):
         am2 = [c for c in x.calls() if c.is_(r'append_meta$')]
         ok = len(es) == 1 and bool(pipe) and (nm == 'collect_html' or len(am2) == 2)
         ctx.ob('S.sections', '%s:pipeline' % nm, ok, '%s documents the sections found by extract_sections with the --help pipeline (%s)' % (nm, sorted({short(c.name) for c in pipe + am2})), where=x.where(), cfg=cfg)
+        if nm == 'render_manpage':
+            # ... each of them with its item listing: whether the --help pipeline runs for a section depends on nothing but "there is a
+            # next section" (a level without items of its own still has -h/--help and -V/--version to list)
+            wg = [c for c in x.calls() if c.is_(r'write_help_item_groups$')]
+            heads = [c for c in x.calls() if c.is_(r'Iterator>?::next$') and 'DocSection' in c.full and wg and x.dominates(c.bb, wg[0].bb)]
+            skip = []
+            for h in heads[-1:]:
+                sw = switch_on_call(x, h)
+                body_ = sw.target('Some') if sw is not None else None
+                for c in wg + am2:
+                    if body_ is None or h.bb in reachable_edges(x, body_, avoid=[c.bb]):
+                        skip.append('%s can be skipped (%s)' % (short(c.name), x.where(c.bb)))
+            ctx.ob('S.sections', '%s:listing-for-every-section' % nm, bool(wg) and bool(heads) and not skip, '%s lists the items of every section, its help/version flags included: %s' % (nm, sorted(set(skip)) or 'every pass of the section loop reaches both append_meta calls and write_help_item_groups'), where=x.where(), cfg=cfg)
         # every section found is documented: nothing removes, filters or de-duplicates the list of sections
         fam = fs.family(x)
         shrink = sorted({re.sub(r'::<.*$', '', c.name.split('>::')[-1]) for y in fam for c in y.calls() if 'DocSection' in c.full and c.is_(r'Vec::<.*>::(retain|retain_mut|dedup\w*|truncate|remove|swap_remove|drain|pop|clear|split_off)\b')})
